@@ -211,3 +211,95 @@ pub fn run(st: &Value, idx: usize, seed: u64) -> RunResult {
     }
     finish_run(st, idx, pre, rep, post, scripted)
 }
+
+// ------------------------------------------------------------------------------------------------ free-running race
+
+mod race {
+    use std::sync::atomic::{AtomicUsize, Ordering};
+    use std::sync::{mpsc, Arc};
+    use std::time::{Duration, Instant};
+
+    use vrt::{json, Value};
+
+    #[allow(dead_code)]
+    struct Cell(Arc<AtomicUsize>, Arc<AtomicUsize>);
+    impl Drop for Cell {
+        fn drop(&mut self) {
+            self.1.fetch_add(1, Ordering::SeqCst);
+        }
+    }
+
+    #[linked::object]
+    struct Thing {
+        #[allow(dead_code)]
+        cell: Cell,
+    }
+
+    impl Thing {
+        fn new(created: Arc<AtomicUsize>, destroyed: Arc<AtomicUsize>) -> Self {
+            linked::new!(Self {
+                cell: {
+                    created.fetch_add(1, Ordering::SeqCst);
+                    Cell(Arc::clone(&created), Arc::clone(&destroyed))
+                },
+            })
+        }
+    }
+
+    /// Plain OS threads, no scheduler: the owner thread hands its ONLY reference to a helper thread, which drops it there
+    /// (`RefSync: Send`); while that foreign drop is in flight the owner keeps acquiring pairs a, b on its own thread.  a is
+    /// alive while b is acquired, so both must be the same instance ("at most one live instance per thread").  One summary
+    /// record, judged by LinkedAbs.
+    pub fn run(budget: Duration) -> Vec<Value> {
+        let (created, destroyed) = (Arc::new(AtomicUsize::new(0)), Arc::new(AtomicUsize::new(0)));
+        let w = linked::InstancePerThreadSync::new(Thing::new(Arc::clone(&created), Arc::clone(&destroyed)));
+        let (tx, rx) = mpsc::channel::<linked::RefSync<Thing>>();
+        let (ack_tx, ack_rx) = mpsc::channel::<()>();
+        let helper = std::thread::spawn(move || {
+            while let Ok(r) = rx.recv() {
+                drop(r);
+                if ack_tx.send(()).is_err() {
+                    break;
+                }
+            }
+        });
+        let t0 = Instant::now();
+        let (mut rounds, mut pairs, mut two_live) = (0u64, 0u64, 0u64);
+        while t0.elapsed() < budget && two_live == 0 {
+            let r1 = w.acquire();
+            tx.send(r1).expect("helper alive");
+            let mut acked = false;
+            for _ in 0..64 {
+                let a = w.acquire();
+                let b = w.acquire();
+                pairs += 1;
+                if !std::ptr::eq(&raw const *a, &raw const *b) {
+                    two_live += 1;
+                }
+                drop(b);
+                drop(a);
+                if ack_rx.try_recv().is_ok() {
+                    acked = true;
+                    break;
+                }
+            }
+            if !acked {
+                ack_rx.recv().expect("helper alive");
+            }
+            rounds += 1;
+        }
+        drop(tx);
+        helper.join().expect("helper");
+        drop(w);
+        vec![
+            json!({"ev":"reset","stim":0,"kind":"pt-race","id":"pt:foreign-drop-races-acquire:free-running"}),
+            json!({"ev":"ptrace","rounds":rounds.min(2_000_000_000),"pairs":pairs.min(2_000_000_000),"two_live":two_live,
+                   "created":created.load(Ordering::SeqCst).min(2_000_000_000),"destroyed":destroyed.load(Ordering::SeqCst).min(2_000_000_000)}),
+            json!({"ev":"end","outcome":"completed","drift":0,"scripted":false,"nsteps":0,"steps":[]}),
+        ]
+    }
+}
+
+pub fn race_free(budget: std::time::Duration) -> Vec<vrt::Value> {
+    race::run(budget)
+}
